@@ -613,7 +613,7 @@ def check(src, rep):
     rep.floor("stores to tracked fields", counts.get("tracked_field_stores", 0), 11)
     rep.floor("memo accessors", counts.get("memo_accessors", 0), 4)
     rep.floor(".chunks access sites", counts.get("I2-no-inplace-on-shared-chunks_access_sites", 0), 25)
-    rep.floor("cached properties", counts.get("cached_properties", 0), 1)
+    # (no floor on the number of cached properties: a tree without any has nothing for I4 to check; the count is in the evidence)
     fx = Source(os.path.join(VERIF, "selftest", "fixtures", "c13"))
     frep = Report("C13", "fixture", fx.repo)
     run_rules(fx, frep, fmt_mod="formatstring")
